@@ -139,7 +139,7 @@ class Mon:
         self.rec.count("width_parity_%d" % (W % 2))
 
 
-def run_case(case, rec, mon=None):
+def _run_case(case, rec, mon=None):
     own = mon is None
     if own:
         monitor.detach_all()
@@ -182,6 +182,17 @@ def run_case(case, rec, mon=None):
         monitor.detach_all()
 
 
+def run_case(case, rec, mon=None):
+    """the threshold is a configuration value: a share of the cases runs with it changed after import"""
+    from ..common import support_threshold
+
+    thr = case.get("threshold")
+    if thr is not None:
+        rec.count("cases_with_threshold_" + repr(thr))
+    with support_threshold(thr):
+        _run_case(case, rec, mon)
+
+
 def plan(tier, seed):
     n = 1600 if tier == "quick" else 24000
     return [{"a": a, "b": b, "seed": seed} for a, b in split(n, 16)]
@@ -200,7 +211,7 @@ def run_shard(spec, rec):
             run_case({"idx": i, "seed": spec["seed"], "cfg": gen.stft_cfg(rng), "kind": "stft"}, rec, mon)
         else:
             cfg = filtgen.bank_cfg(rng)
-            run_case({"idx": i, "seed": spec["seed"], "cfg": cfg}, rec, mon)
+            run_case({"idx": i, "seed": spec["seed"], "cfg": cfg, "threshold": [None, None, 5e-5, None, 2e-3, None][i % 6]}, rec, mon)
     monitor.report(rec)
     monitor.detach_all()
 
